@@ -11,7 +11,7 @@ import (
 func init() { scenarios["C02"] = scenarioC02 }
 
 var c02Contexts = []string{"body", "action", "invariant", "custom", "cleanup-of-body", "cleanup-of-action", "cleanup-of-custom", "goroutine"}
-var c02Positions = []string{"first-case", "after-k-passes", "after-k-skips", "every-case", "last-case", "before-skip", "data-dependent", "then-skip-in-cleanup"}
+var c02Positions = []string{"first-case", "after-k-passes", "after-k-skips", "every-case", "last-case", "before-skip", "data-dependent", "then-skip-in-cleanup", "only-in-first-fail-file-replay"}
 
 type c02Cell struct {
 	kind FailKind
@@ -29,6 +29,9 @@ var c02Cells = func() []c02Cell {
 				}
 				if p == 5 && (k.Fatal() || c == 2 || c == 4 || c == 5 || c == 6) {
 					continue // "signal, then Skip" needs a non-fatal signal in a context that may skip
+				}
+				if p == 8 && c == 7 {
+					continue
 				}
 				if p == 7 && (!k.TMethod() || c == 7) {
 					continue // a later Skip (from a cleanup) superseding the unwinding: *T-method signals are sticky by design
@@ -106,6 +109,9 @@ func scenarioC02(rc *RunCtx) {
 			fl.Checks = k + t.Int("c02.extra", 1, 6)
 		}
 		pre = append(pre, &Stmt{K: SCleanup, ID: 80, Body: []*Stmt{{K: SIf, Cond: cond, Body: []*Stmt{{K: SSkip, SKind: t.Pick("skip.kind", 3)}}}}})
+	case 8: // a fail file exists; the property signals only in the very first invocation of the next Check (the first replay)
+		cond = &Cond{Op: OpInvIdx, C: 0}
+		fl.Checks = t.Int("c02.checks8", 1, 6)
 	case 6: // deterministic in the draws: the failing case is reproduced, minimized and replayed
 		cond = &Cond{Var: 0, Op: OpGE, C: int64(t.Int("c02.thr", 0, 9))}
 		fl.Checks = t.Int("c02.checks6", 1, 30)
@@ -175,7 +181,23 @@ func scenarioC02(rc *RunCtx) {
 	}
 	p.Body = body
 	cc := genClockChoice(t, fl.ShrinkTime, 6, 2, 1, 0, 0)
-	cr := RunCheck(p, RunOpt{Name: genName(t, false), Dir: rc.FreshDir(), Flags: fl, Clock: cc.Resolve(0), WithCtx: t.Chance("tb.ctx", 15)})
+	name := genName(t, false)
+	dir := rc.FreshDir()
+	if cell.pos == 8 {
+		// phase 1: the same program failing in every invocation writes the fail file
+		*cond = Cond{Op: OpTrue}
+		f1 := fl
+		f1.NoFailFile = false
+		f1.ShrinkTime = 0
+		pre := RunCheck(p, RunOpt{Name: name, Dir: dir, Flags: f1, Clock: ClockPolicy{Kind: ClkFrozen}})
+		rc.SimNs += int64(pre.SimElapsed)
+		*cond = Cond{Op: OpInvIdx, C: 0}
+		fl.NoFailFile = true
+		if len(FailFilesIn(Snapshot(dir))) > 0 {
+			rc.Inc("probe.fail_file_present_for_phase2")
+		}
+	}
+	cr := RunCheck(p, RunOpt{Name: name, Dir: dir, Flags: fl, Clock: cc.Resolve(0), WithCtx: t.Chance("tb.ctx", 15)})
 	rc.Note(cr)
 	cellName := fmt.Sprintf("%v/%s/%s", cell.kind, c02Contexts[cell.ctx], c02Positions[cell.pos])
 	rc.Sample = fmt.Sprintf("cell=%s k=%d %v verdict=%s\n%s", cellName, k, fl, cr.Verdict, p)
